@@ -856,6 +856,38 @@ class Tie:
             self.ctx.note(f'{check.__name__}{args!r}: evaluate {seen_wb!r} vs library call {seen_lib!r}')
 
 
+def far_months(ctx):
+    """month arguments and month counts far outside of a calendar year: DATE carries them (the calendar has 97 199
+    months), beyond it the answer is #NUM!, never an exception"""
+    k = 0
+    cases = []
+    for y, m, d in ((1901, 32768, 15), (1900, 97199, 1), (1900, 97200, 31), (9999, -97187, 1), (9999, -97200, 1), (5000, 40000, 28),
+                    (5000, -40000, 28), (1950, 65536, 1), (1900, 10 ** 9, 1), (1900, 1e22, 1), (1900, -1e22, 1), (1900, 2 ** 63, 1),
+                    (2000, 1, 1e22), (2000, 1, -1e22), (1e22, 1, 1)):
+        cases.append(('date', (y, m, d), cal.date_serial(int(y), int(m), int(d))[0] if abs(m) < 1e7 and abs(d) < 1e7 and abs(y) < 1e7 else NUM))
+    start = cal.date_serial(1901, 1, 15)[0]
+    for n, mk in ((start, 40000), (start, 32768), (start, 97000), (start, 98000), (cal.date_serial(9999, 1, 31)[0], -40000),
+                  (start, 1e22), (start, -1e22), (100, 2 ** 63)):
+        for f in ('edate', 'eomonth'):
+            if abs(mk) < 1e7:
+                want = cal.eomonth(n, int(mk)) if f == 'eomonth' else cal.edate(n, int(mk))[0]
+            else:
+                want = NUM
+            cases.append((f, (n, mk), want))
+    for f, args, want in cases:
+        k += 1
+        if not ctx.mine(k):
+            continue
+        o = lib.call(f, *args)
+        ctx.count('far-months')
+        ctx.case(('far-months', f, args))
+        case = {'part': 'far-months'}
+        if o[0] == 'x':
+            ctx.violation(f'{f.upper()}/far-month-raises', f'{f.upper()}{args} {show(o)}; expected {want!r}, never an exception', case)
+        elif want is not None and o[1] != want:
+            ctx.violation(f'{f.upper()}/far-month-wrong-value', f'{f.upper()}{args} = {show(o)}; expected {want!r}', case)
+
+
 def fractional_arguments(ctx):
     """year, month, day and the number of months given as numbers that are not whole: never an exception; the months of
     EDATE / EOMONTH are truncated (documented), the start day counts with its whole part; for DATE the whole part of
@@ -884,9 +916,9 @@ def fractional_arguments(ctx):
                 ctx.violation('DATE/fractional-argument-not-its-whole-part',
                               f'DATE{args} = {show(o)}; with the whole parts of the arguments it is one of {sorted(map(str, wants))}', case)
     for f in ('edate', 'eomonth'):
-        for n in (100, 59, 61, 36525, 45000, 2958465, 31):
-            for mk in (1.5, -1.5, 0.9, -0.9, 12.25, -13.75, 2.999999):
-                for dn in (0, 0.5):
+        for n in (100, 59, 61, 36525, 45000, 2958465, 31, 60, 0, 1, 366):
+            for mk in (1.5, -1.5, 0.9, -0.9, 12.25, -13.75, 2.999999, 0, 12, 1):
+                for dn in (0, 0.5, 0.25, 0.999):
                     k += 1
                     if not ctx.mine(k):
                         continue
@@ -909,6 +941,7 @@ def run(ctx):
     cal.selfcheck()
     tie = Tie(ctx)
     fractional_arguments(ctx)
+    far_months(ctx)
     sweep_date(ctx, tie)
     sweep_shift(ctx, tie)
     sweep_hms(ctx, tie)
